@@ -484,3 +484,95 @@ func ruleSP2SH(c *Ctx) {
 	c.Check(len(problems) == 0, "S-p2sh", "thread.Step", fn.Pos(), "BIP16 hand-over: save after script 1; after script 2 check (non-final), parse the saved top item, append it, continue on the saved stack without it",
 		"thread.Step: "+strings.Join(problems, "; "))
 }
+
+// T-tmpl/multisig-keys (C14): the key scan of IsMultiSigOut. Between the leading small integer and the trailing
+// small integer + OP_CHECKMULTISIG every part (indices 1 .. len-3) must be non-empty: the loop's counter starts at
+// 1, goes up by one, runs while i < len(parts)-2, and an empty parts[i] answers false.
+func ruleTMultisigScan(c *Ctx) {
+	fn := c.P.Func("bscript", "*Script", "IsMultiSigOut")
+	if fn == nil {
+		c.Undecided("T-tmpl", "IsMultiSigOut/key-scan", token.NoPos, "not found")
+		return
+	}
+	env := newTermEnv()
+	why := "no loop over the key parts found"
+	for _, h := range fn.Blocks {
+		if !isLoopHeader(h) {
+			continue
+		}
+		iff, ok := h.Instrs[len(h.Instrs)-1].(*ssa.If)
+		if !ok {
+			continue
+		}
+		bo, ok := iff.Cond.(*ssa.BinOp)
+		if !ok || bo.Op != token.LSS {
+			why = "the scan's test is not i < bound"
+			continue
+		}
+		ph, isPh := bo.X.(*ssa.Phi)
+		bound := canonTerm(env.Term(bo.Y))
+		switch {
+		case isPh && ph.Block() == h && phiStartsAt(ph, 1) && phiStepsByOne(ph, h):
+			// for i := 1; i < len(parts)-2; i++
+			if !strings.Contains(bound, "len(") || !strings.HasSuffix(strings.TrimSuffix(bound, ")"), "- 2") {
+				why = "the scan does not stop before the trailing small integer and OP_CHECKMULTISIG (bound " + bound + ", expected len(parts) - 2)"
+				continue
+			}
+		case countsFromZero(bo.X, h):
+			// for _, key := range parts[1:len(parts)-2]
+			okWin := false
+			if ln, isCall := bo.Y.(*ssa.Call); isCall && isLenCall(ln) {
+				if sl, isSl := ln.Call.Args[0].(*ssa.Slice); isSl && sl.Low != nil && sl.High != nil {
+					lo, isK := constInt(sl.Low)
+					hi := canonTerm(env.Term(sl.High))
+					okWin = isK && lo.Int64() == 1 && strings.Contains(hi, "len(") && strings.HasSuffix(strings.TrimSuffix(hi, ")"), "- 2")
+				}
+			}
+			if !okWin {
+				why = "the scan does not run over the parts from index 1 to len(parts)-3 (it ranges over " + bound + ")"
+				continue
+			}
+		default:
+			why = "the scan does not start at the part after the leading small integer (index 1) and visit every part in turn"
+			continue
+		}
+		// the body: len(parts[i]) < 1 (or == 0) -> return false
+		body := h.Succs[0]
+		biff, ok := body.Instrs[len(body.Instrs)-1].(*ssa.If)
+		if !ok {
+			why = "the scan's body does not test the part"
+			continue
+		}
+		a, flip := canonAtom(canonTerm(env.Term(biff.Cond)))
+		emptyOnTrue := false
+		switch {
+		case strings.HasPrefix(a, "(len(") && strings.HasSuffix(a, " == 0)"):
+			emptyOnTrue = !flip
+		case strings.HasPrefix(a, "(len(") && strings.HasSuffix(a, " < 1)"):
+			emptyOnTrue = !flip
+		default:
+			why = "the scan's body tests " + shorten(a, 60) + ", expected an empty part"
+			continue
+		}
+		if !strings.Contains(a, "[") {
+			why = "the length tested is not that of parts[i]"
+			continue
+		}
+		rej := body.Succs[0]
+		if !emptyOnTrue {
+			rej = body.Succs[1]
+		}
+		r, isRet := rej.Instrs[len(rej.Instrs)-1].(*ssa.Return)
+		if !isRet || len(r.Results) != 1 {
+			why = "an empty key part does not end the scan with an answer"
+			continue
+		}
+		if k, isK := r.Results[0].(*ssa.Const); !isK || k.Value == nil || constant.BoolVal(k.Value) {
+			why = "an empty key part is not answered with false"
+			continue
+		}
+		why = ""
+		break
+	}
+	c.Check(why == "", "T-tmpl", "IsMultiSigOut/key-scan", fn.Pos(), "every part from index 1 to len-3 must be non-empty", "IsMultiSigOut: "+why)
+}
